@@ -274,6 +274,21 @@ def _r1(ctx):
     # the macro header uses the same suffix expression over the same sequence, paired with loop.index0
     # (a loop over `network.elements | map(attribute=..)` is the loop over network.elements with the attribute read in the body)
     mit = J.unmap_loops(J.flatten(tree, MACROS, {}))
+    # a top-level `{% set all_elements = network.elements %}` bound once is the sequence it names: loops over the alias are loops over it
+    _al = {}
+    for it_ in mit:
+        if isinstance(it_, tuple) and it_ and it_[0] == "set" and it_[1][0] == "name":
+            _al[it_[1][1]] = None if it_[1][1] in _al else it_[-1]
+    _al = {k: v for k, v in _al.items() if v is not None and J.path(J.unfilter(v)[0]) is not None}
+    if _al:
+        def _dealias(items_):
+            out_ = []
+            for it_ in items_:
+                if isinstance(it_, tuple) and it_ and it_[0] == "for":
+                    it_ = it_[:2] + (J.subst(it_[2], _al),) + (_dealias(it_[3]) if isinstance(it_[3], list) else it_[3],) + it_[4:]
+                out_.append(it_)
+            return out_
+        mit = _dealias(mit)
     ctx.saw(MACROS)
     mloops = [it for it, st in J.walk_items(mit) if it[0] == "for" and J.path(J.unfilter(it[2])[0]) == "network.elements"
               and any(p_[0] == "lit" and "IDX_ELEM_" in p_[1] for p_ in J.squeeze(J.printed(tree, it[3], {})))]
